@@ -580,12 +580,8 @@ func c11SingleLoad(c *core.Ctx) {
 	}
 
 	// (d) no field path from a generation type back to the mux
-	gen := []*types.Named{miT}
-	for _, tn := range []string{"muxRule", "MuxPath", "route"} {
-		if n := namedType(c, hs, tn); n != nil {
-			gen = append(gen, n)
-		}
-	}
+	gen := c11GenTypes(r)
+	c.RequireCount("R-C11-1", "generation types (instance, rule, path, route)", len(gen), 3)
 	for _, n := range gen {
 		p := c11TypeReaches(n.Underlying(), muxT)
 		c.Check(p == nil, "R-C11-1", hs+"."+n.Obj().Name()+"|no field path back to mux", c.Prog.Rel(n.Obj().Pos()),
@@ -788,17 +784,15 @@ func c11MuxImmutable(c *core.Ctx) {
 	}
 	pkg, instF := r.pkg, r.instF
 	info := pkg.TypesInfo
-	miN := r.miT.Obj().Name()
-	genTypes := []string{miN, "muxRule", "MuxPath", "route"}
-	fields := c11FieldsOf(c, hs, genTypes...)
+	var genTypes []string
 	whole := map[*types.Named]bool{}
-	for _, tn := range genTypes {
-		if n := namedType(c, hs, tn); n != nil {
-			whole[n] = true
-		}
+	for _, n := range c11GenTypes(r) {
+		genTypes = append(genTypes, n.Obj().Name())
+		whole[n] = true
 	}
-	if len(fields) < 20 {
-		c.Errorf("R-C11-2: anchor: expected the fields of %s/muxRule/MuxPath/route, found %d", miN, len(fields))
+	fields := c11FieldsOf(c, hs, genTypes...)
+	if len(genTypes) < 3 || len(fields) < 20 {
+		c.Errorf("R-C11-2: anchor: expected the instance type, its rule and path types (and the route result type), found %v with %d fields", genTypes, len(fields))
 		return
 	}
 	decls := c11DeclOf(pkg)
@@ -878,6 +872,33 @@ func c11MuxImmutable(c *core.Ctx) {
 				arg = s.call.Args[idx]
 			}
 			where := declName(pkg, s.caller) + " at " + pos(c, s.call)
+			// an element of a fresh local container that only ever receives freshly created objects
+			// (paths[j] after paths[j] = newMuxPath(...), or the range variable over paths)
+			if arg != nil {
+				if root := c11FreshElement(info, decls, s.caller.Body, arg); root != nil {
+					if s.inLit {
+						return -1, "the call in " + where + " is inside a function literal: it cannot be ordered against the publication"
+					}
+					fi := get(s.caller)
+					res := run(fi)
+					published, n := false, 0
+					if res != nil {
+						n = len(res.At[s.call])
+						for _, st := range res.At[s.call] {
+							if st.Is("ev:pub", flow.True) {
+								published = true
+							}
+						}
+					}
+					if published {
+						return 0, "the caller " + where + " calls it after a generation has been published with Store"
+					} else if n == 0 {
+						return -1, "the call in " + where + " is not reached by the flow analysis"
+					}
+					callers = append(callers, declName(pkg, s.caller))
+					continue
+				}
+			}
 			id, ok := ast.Unparen(arg).(*ast.Ident)
 			if !ok {
 				if arg != nil && c11IsFreshExprD(info, decls, arg, 0) {
